@@ -74,7 +74,7 @@ for level in ("Vector", "Matrix"):
         "decide": {"C.contractions": True, "destructive": False}, "ignore_calls": ("self.container",), "havoc_calls": (), "checkpoint_calls": (),
         "expect_state": _div(_apply_mat("Ksel"), "trace"), "expect_layout": ("Mem", "Mem"), "expect_members": "Mem", "probs_normalized": True,
         "expect_probs": ("re", ("trace", _reduced_apply("K"))), "probs_var": "prob_list", "min_sites": 6,
-        "properties": ["C09"]})
+        "properties": ["C09", "C05"]})
 
 # ---- ProductState.trace_out (matrix level): returns Tr_R rho as a matrix over Tg, in the order of the request
 SPECS.append({
@@ -94,7 +94,9 @@ for level in ("Vector", "Matrix"):
         "function": f"{COMP}::ProductState.reorder", "case": level, "level": level, "ctx": _ctx_reorder, "env": lambda ctx: {"ordered_states": AList("Ord")},
         "fields": _fields, "decide": {}, "ignore_calls": ("self.container",), "havoc_calls": (), "checkpoint_calls": (),
         "expect_state": (con([("psi", False, (gv(A="i"),))], [gv(A="i")]) if level == "Vector" else con([("rho", False, (gv(A="i"), gv(A="j")))], [gv(A="i"), gv(A="j")])),
-        "expect_layout": ("Ord", "one") if level == "Vector" else ("Ord", "Ord"), "expect_members": "Ord", "min_sites": 3, "properties": ["C02", "C13"]})
+        "expect_layout": ("Ord", "one") if level == "Vector" else ("Ord", "Ord"), "expect_members": "Ord", "min_sites": 3,
+        # every routed request reorders first: the contracts of C01 / C03 / C06 / C09 along a history rest on this one
+        "properties": ["C01", "C02", "C03", "C06", "C09", "C13"]})
 
 
 # ---- stand-alone subsystems (own state): O psi / O rho O^dagger with literal einsum strings; channel through ops.apply_kraus
